@@ -186,6 +186,76 @@ def random_recipe(rng, space=None):
     return r
 
 
+SIBLING_ATTRS = ["cdf", "chroma_depth", "luma_depth", "wi", "dh", "d", "sx", "sy", "pcm", "size", "qm", "fsc", "pb"]
+
+
+def sibling(rng, r, attr=None):
+    """A copy of recipe `r` with exactly one attribute changed (and whatever must follow from it: a matrix where no
+    default exists, regular dimensions).  Running siblings one after the other in the same process exposes state
+    that survives between encodes/decodes under too coarse a key (caches, memoised geometry, tables written in place)."""
+    import copy
+
+    s = copy.deepcopy(r)
+    attr = attr or rng.choice(SIBLING_ATTRS)
+    rg = list(s.get("range") or [0, 255, 128, 255])
+    if attr == "cdf":
+        s["cdf"] = rng.choice([c for c in (0, 1, 2) if c != r["cdf"]])
+    elif attr == "chroma_depth":
+        rg[2], rg[3] = (512, 1023) if rg[3] != 1023 else (128, 255)
+        s["range"] = rg
+    elif attr == "luma_depth":
+        rg[0], rg[1] = (64, 1023) if rg[1] != 1023 else (16, 255)
+        s["range"] = rg
+    elif attr == "wi":
+        s["wi"] = (r["wi"] + 1) % 7
+        if r["dh"] == 0:
+            s["wih"] = s["wi"]
+    elif attr == "dh":
+        s["dh"] = 0 if r["dh"] else 1
+        if s["dh"] == 0:
+            s["wih"] = s["wi"]
+    elif attr == "d":
+        s["d"] = r["d"] + 1 if r["d"] < 2 else r["d"] - 1
+    elif attr == "sx":
+        s["sx"] = r["sx"] + 1 if r["sx"] < 3 else 1
+    elif attr == "sy":
+        s["sy"] = r["sy"] + 1 if r["sy"] < 2 else 1
+    elif attr == "pcm":
+        s["pcm"] = 1 - r["pcm"]
+        s["pics"]["n"] = max(1, r["pics"]["n"] // 2) * (2 if s["pcm"] else 1)
+    elif attr == "size":
+        s["w"], s["h"] = r["w"] * 2, r["h"]
+        for k in ("cw", "ch", "lo", "to"):
+            s.pop(k, None)
+    elif attr == "qm":
+        s["qm"] = random_matrix(rng, s["d"], s["dh"])
+    elif attr == "fsc":
+        s["fsc"] = 0 if r["fsc"] else rng.choice([1, 2])
+    elif attr == "pb":
+        if s["pb"] is not None:
+            s["pb"] = s["pb"] + rng.choice([1, 3, s["sx"] * s["sy"]])
+    # keep the recipe in the generator's domain
+    xm = 2 if s["cdf"] in (1, 2) else 1
+    ym = (2 if s["cdf"] == 2 else 1) * (2 if (s["pcm"] == 1 or s["ss"] == 1) else 1)
+    if s["w"] % xm:
+        s["w"] += xm - s["w"] % xm
+    if s["h"] % ym:
+        s["h"] += ym - s["h"] % ym
+    if "cw" in s:
+        s["cw"], s["ch"] = min(s["cw"], s["w"]), min(s["ch"], s["h"])
+        s["lo"], s["to"] = min(s["lo"], s["w"] - s["cw"]), min(s["to"], s["h"] - s["ch"])
+    if s.get("qm") is not None and attr in ("wi", "dh", "d"):
+        s["qm"] = random_matrix(rng, s["d"], s["dh"])
+    if s.get("qm") is None and not has_default_matrix(s["wi"], s["wih"], s["d"], s["dh"]):
+        s["qm"] = random_matrix(rng, s["d"], s["dh"])
+    s.pop("expect_rejection", None)
+    if s["pb"] is not None:
+        n = s["sx"] * s["sy"]
+        s["pb"] = max(s["pb"], n * (4 if s["profile"] == 3 else 1))
+    s["sibling_of"] = attr
+    return s
+
+
 def build_vp(r):
     from vc2_conformance.pseudocode.video_parameters import set_source_defaults
 
